@@ -95,6 +95,21 @@ class ScriptedUniform:
         return (v + (0.25 if v > 0 else -0.25 if v < 0 else 0.0)) / 1e9
 
 
+def exact_secs(ns: int) -> bool:
+    """eascheduler keeps offsets / intervals / jitter bounds as float seconds and whenever converts float
+    seconds to nanoseconds by truncation: only amounts that are binary fractions of a second (multiples of
+    1/1024 s ... here: of 1/8 s) survive that for every base instant (see known finding F15)."""
+    return ns % 125_000_000 == 0
+
+
+def make_exact(ns: int) -> int:
+    """the nearest multiple of 1/8 s (away from zero, never 0 unless ns is 0)"""
+    if ns == 0 or exact_secs(ns):
+        return ns
+    q = 125_000_000
+    return (abs(ns) // q + 1) * q * (1 if ns > 0 else -1)
+
+
 def seed_from_env(default: int = 1) -> int:
     try:
         return int(os.environ.get('VERIF_SEED', default))
